@@ -478,6 +478,6 @@ CLAIM = {
             "FuturesExchange / Position code with symbolic quantities and prices: one closed trade, its qty / weighted entry / "
             "weighted exit / order list / open-close times are those of the fills, and trade net PnL == wallet change and trade fee "
             "== fee*qty*(entry+exit) as polynomial identities. (3) _terminate force-closes an open position with one order for the "
-            "whole size at the current price. Position flips are analysed separately (see known findings). Trade open / close times: the simulators set the clock to the end of the fill minute before every execution (fast matcher per fill, normal simulator per minute; R7 / R7n).",
+            "whole size at the current price. Position flips are analysed separately (see known findings). Trade open / close times: the simulators set the clock to the end of the fill minute before every execution (fast matcher per fill, normal simulator per minute; R7 / R7n). The two deliveries of a flipping order to one strategy object are both dispatched (R1 flip).",
     "note": "Trusted: interpreter semantics, numpy table model, exact arithmetic; cycles are the four enumerated shapes.",
 }
